@@ -193,6 +193,25 @@ def run_render(items, delays, pool_size, raise_source_errors):
     return merger.added, raised
 
 
+def with_timeout(fn, args, seconds=6.0):
+    """Run fn(*args) in a daemon thread; returns ('ok', value) / ('raised', exc) / ('hang', None)."""
+    box = {}
+
+    def target():
+        try:
+            box['v'] = fn(*args)
+        except BaseException as e:  # noqa
+            box['e'] = e
+    t = threading.Thread(target=target, daemon=True)
+    t.start()
+    t.join(seconds)
+    if t.is_alive():
+        return 'hang', None
+    if 'e' in box:
+        return 'raised', box['e']
+    return 'ok', box['v']
+
+
 # ---------------------------------------------------------------- driver
 
 def spec_first_exc(items):
@@ -211,7 +230,12 @@ def run(ctx):
         ps = rng.choice([1, 2, 2, 3, 4, 6])
         items = gen_items(rng, n, allow_fail=(c % 3 != 0))
         delays = [rng.choice([0.0, 0.002, 0.006, 0.012]) for _ in range(n)]
-        res = run_bulk(list(items), list(delays), ps)
+        st, res = with_timeout(run_bulk, (list(items), list(delays), ps))
+        if st != 'ok':
+            ctx.fail('consumer=bulk_meta,' + ('hang' if st == 'hang' else 'harness-visible-exception'),
+                     '_create_bulk_meta_tile did not terminate' if st == 'hang' else 'unexpected %r' % (res,),
+                     {'consumer': 'TileCreator._create_bulk_meta_tile', 'concurrent_tile_creators': ps, 'tile_outcomes': items, 'delays': delays})
+            continue
         if res is None:
             continue
         stored, raised, returned, items = res
@@ -252,7 +276,14 @@ def run(ctx):
         items = gen_items(rng, n, allow_fail=(c % 4 != 0))
         delays = [rng.choice([0.0, 0.002, 0.006, 0.012]) for _ in range(n)]
         raise_mode = c % 2 == 0
-        added, raised = run_render(items, delays, ps, raise_mode)
+        st, res = with_timeout(run_render, (items, delays, ps, raise_mode))
+        if st != 'ok':
+            ctx.fail('consumer=render_%s,%s' % ('raise' if raise_mode else 'capture', 'hang' if st == 'hang' else 'unexpected-exception'),
+                     'LayerRenderer.render did not terminate' if st == 'hang' else 'LayerRenderer.render raised %r' % (res,),
+                     {'consumer': 'LayerRenderer.render', 'raise_source_errors': raise_mode, 'concurrent_rendering': ps,
+                      'layer_outcomes': items, 'delays': delays})
+            continue
+        added, raised = res
         ctx.case(('render', raise_mode, ps, tuple(items), tuple(delays)), any(k != 'ok' for k, _ in items),
                  {'consumer': 'LayerRenderer', 'raise_source_errors': raise_mode, 'concurrent_rendering': ps,
                   'layers': items, 'added': added, 'raised': raised})
